@@ -37,6 +37,10 @@ SAFE_STR = {
 }
 
 
+os.environ["VF_ABS_ROOT"] = "/vf_abs/env_root"
+os.environ["VF_REL_PART"] = "rel_from_env"
+
+
 def _defaults():
     out = {}
     for f in dataclasses.fields(fs.ProjectSettings):
@@ -88,7 +92,7 @@ def values_for(name, cls, rng):
             return ["abc", "two words"] + (["first line\nNote: second line\nhttps://example.org/third"] if name in ("summary", "author_description") else ["https://example.org/a/b"])
         return ["abc", "two words", "x_y-z.1", "Caps And 123", '3.5" floppy tools', "it's 'quoted' \\ back"]
     if base == "path":
-        vals = ["sub/dir", "./a/../b", "plain", "/abs/olute/p"]
+        vals = ["sub/dir", "./a/../b", "plain", "/abs/olute/p", "$VF_ABS_ROOT/envp", "${VF_ABS_ROOT}/envq/r", "$VF_REL_PART/envs"]  # environment variables are expanded first
         # the user's own file or directory named like the built-in default (favicon.png next to the project file ...)
         dflt = DEFAULTS.get(name)
         if isinstance(dflt, (str, Path)) and Path(dflt).name:
@@ -105,7 +109,7 @@ def values_for(name, cls, rng):
             return [["F90"], ["fpp", "F"]]
         return [["one"], ["one", "two"], ["a b", "c", "d"], ["plain", "key: like", "https://example.org/x"]]
     if base == "list_path":
-        return [["p1"], ["p1", "../p2", "/abs/p3"]]
+        return [["p1"], ["p1", "../p2", "/abs/p3"], ["$VF_ABS_ROOT/lp", "$VF_REL_PART/lq"]]
     if base == "dict_str":
         if name == "external":
             return [{"remote": "https://example.org/doc"}, {"a": "https://a.example", "b": "../local/doc"}]
@@ -174,8 +178,12 @@ def md_render(opts, alt=False):
             vl = [(" \t " if k % 2 else "   ").join(x.split(" ")) for k, x in enumerate(vl)]
         key = [name.upper(), "  " + name, name.capitalize(), name][i % 4]
         multi = base in ("list_str", "list_path", "dict_str", "dict_filetype")
-        if multi and len(vl) > 1 and i % 2 == 0:
+        if multi and len(vl) > 1 and i % 3 == 0:
             lines += [f"{key}:   {x}  " for x in vl]
+        elif base in ("dict_str", "dict_filetype") and i % 3 == 1:  # (an empty entry means something in a plain list: switch copy_subdir off ...)
+            # nothing on the key line, every entry on a continuation line
+            lines.append(f"{key}:")
+            lines += [f"    {x}" for x in vl]
         else:
             lines.append(f"{key}:\t{vl[0]} ")
             for extra in vl[1:]:
@@ -364,9 +372,9 @@ def expected_scalar(name, cls, v, projdir):
             return None  # mapped to HTML snippets
         return v
     if base == "path":
-        return "P:" + str(Path(os.path.normpath(os.path.join(projdir, v))))
+        return "P:" + str(Path(os.path.normpath(os.path.join(projdir, os.path.expandvars(v)))))
     if base == "list_path":
-        exp = ["P:" + str(Path(os.path.normpath(os.path.join(projdir, x)))) for x in v]
+        exp = ["P:" + str(Path(os.path.normpath(os.path.join(projdir, os.path.expandvars(x))))) for x in v]
         return exp
     if base == "list_str":
         if name == "display":
